@@ -9,4 +9,6 @@ import PeptVerif.Props.C18
 #print axioms Pept.C18.condense_mass
 #print axioms Pept.C18.condense_mass_output
 #print axioms Pept.C18.condense_mass_k
+#print axioms Pept.C18.condense_mass_label
+#print axioms Pept.C18.exCoh_coherent
 #print axioms Pept.C18.condense_mass_cutoff_witness
